@@ -22,7 +22,11 @@ func verifPushState(s *Server) []*verifCall {
 	var out []*verifCall
 	s.callID = nondetInt64("callid")
 	assume(s.callID >= 1 && s.callID < 1<<40)
-	n := nondetChoice("ncalls", 3)
+	maxc := 3
+	if thorough() {
+		maxc = 4
+	}
+	n := nondetChoice("ncalls", maxc)
 	for i := 0; i < n; i++ {
 		k := nondetInt64("call-id")
 		assume(k >= 1 && k < s.callID)
@@ -140,7 +144,11 @@ func Harness_C09_step() {
 		}
 		cancel()
 	case 2: // the reader filters an inbound batch
-		n := 1 + nondetChoice("n", 2)
+		maxb := 2
+		if thorough() {
+			maxb = 3
+		}
+		n := 1 + nondetChoice("n", maxb)
 		var batch jmessages
 		var match []int
 		for i := 0; i < n; i++ {
